@@ -106,7 +106,7 @@ pub fn run(ctx: &Ctx) -> Report {
     rep.assume("QueryRequest::Distribution is not generated: the architecture has no module whose query type accepts it");
     rep.assume("CosmosMsg::Custom cannot be expressed by a contract written against Empty; SudoMsg::Custom is unimplemented by design and not exercised");
     rep.assume("wasm messages are routed to the real WasmKeeper (observed through the contracts' trace in C01-C05)");
-    for k in ["c17/configurations", "c17/log_entries_checked", "c17/failed_tx_state_unchanged_checks", "c17/caught_failure_rollback_checks", "c17/reply_data_from_module_checked", "c17/reply_after_module_answer/no-data+no-events", "c17/reply_after_module_answer/data+events", "c17/sudo/staking", "c17/empty_chain/top/accepting", "c17/empty_chain/contract-with-reply/accepting", "c17/empty_chain/contract/failing", "c17/multi/all-accepted", "c17/multi/message-0-fails", "c17/multi/message-1-fails", "c17/multi/message-2-fails", "c17/builtin/all-accepting/Gov/lifted/accepting", "c17/builtin/all-failing/Any/puppet/failing"] {
+    for k in ["c17/configurations", "c17/log_entries_checked", "c17/failed_tx_state_unchanged_checks", "c17/caught_failure_rollback_checks", "c17/reply_data_from_module_checked", "c17/reply_after_module_answer/no-data+no-events", "c17/reply_after_module_answer/data+events", "c17/sudo/staking", "c17/same_submessage_listed_twice", "c17/empty_chain/top/accepting", "c17/empty_chain/contract-with-reply/accepting", "c17/empty_chain/contract/failing", "c17/multi/all-accepted", "c17/multi/message-0-fails", "c17/multi/message-1-fails", "c17/multi/message-2-fails", "c17/builtin/all-accepting/Gov/lifted/accepting", "c17/builtin/all-failing/Any/puppet/failing"] {
         rep.require(k);
     }
     rep
